@@ -709,7 +709,7 @@ var (
 	c15NearDirs   = []string{"vendor2", "xvendor", "Vendor", "testdata2", "mytestdata", "x_", "x.", "v.go", "x.go", "a.go"}
 	c15ExclDirs   = []string{"vendor", "testdata", ".git", ".x", "_x", "_", "vendor", "testdata", "_old.go", ".c.go", "_.go"}
 	c15GoFiles    = []string{"a.go", "b.go", "main.go", "z.go", "a_test.go", "x_test.go", ".h.go", "_u.go", ".go", "a-b.go", "a0.go", "B.go", "vendor.go", "testdata.go"}
-	c15OtherFiles = []string{"n.txt", "z.go.bak", "go", "xgo", "a.GO", "a.go~", "Makefile", "a.goo", "a.go.txt"}
+	c15OtherFiles = []string{"n.txt", "z.go.bak", "go", "xgo", "a.GO", "a.go~", "Makefile", "a.goo", "a.go.txt", "go.mod", "go.mod", "go.sum", "go.work", ".gitignore", "BUILD.bazel"}
 	c15LinkNames  = []string{"l.go", "lk.go", "ln", "ldir", "l_test.go", "vendor", ".l.go"}
 )
 
@@ -988,7 +988,7 @@ func c15TableTree() []c15Entry {
 		f("a.go"), f("main_test.go"), f(".h.go"), f("_u.go"), f("n.txt"), f("z.go.bak"),
 		{Path: "nomatch.go", Kind: "file", NoMatch: true},
 		f("a/x.go"), f("a-b/x.go"), f("a/sub/s.go"), f("a/vendor/v.go"), f("a/vendor/pkg/p.go"), f("a/sub/testdata/t.go"),
-		f("a/.h/h.go"), f("a/_u/u.go"), f("x.go/in.go"), f("_old.go/o.go"), f("a/.cache.go/deep/c.go"), f("vendor2/w.go"), f("a/sub/deep/er/e.go"), f("a/sub/notes.txt"),
+		f("a/.h/h.go"), f("a/_u/u.go"), f("x.go/in.go"), f("_old.go/o.go"), f("a/.cache.go/deep/c.go"), f("vendor2/w.go"), f("a/sub/deep/er/e.go"), f("a/sub/notes.txt"), f("a/sub/go.mod"), f("a-b/go.mod"),
 		l("l.go", "a.go"), l("a/lx.go", "../a-b/x.go"), l("ld", "a/sub"), l("a/sub/up", ".."), l("dangling.go", "nope.go"),
 		l("loop.go", "loop.go"), l("a/lv", "vendor"), l("ltxt.go", "n.txt"),
 	}
